@@ -420,7 +420,7 @@ func checkAccessors(c *fw.Ctx) {
 			c.Check(bad == "", rule, fmt.Sprintf("(*%s).%s does not write to the event", tname, m.Name()), c.P.Pos(decl.Pos()), "", fmt.Sprintf("the accessor writes the receiver at %s: two goroutines calling it on a shared event race", bad))
 		}
 	}
-	c.Min(rule+" accessors", n, 25)
+	c.Min(rule+" accessors", n, 10)
 }
 
 func fieldPath(p fw.AddrPath) string {
